@@ -45,7 +45,8 @@ def run(ctx):
     if len(sres) < 100:
         raise D.MachineryError('only %d events recorded from the repository test suite' % len(sres))
     D.summarize(ctx, res, 't32')
-    ctx.exhaustive = True
+    ctx.exhaustive = False
+    ctx.extra['exhaustive_subspaces'] = ['all 2^16 first halfwords (x IT positions per tier)', 'class selection of the 32-bit decoder: cube partition tiling 3*2^27 words']
     ctx.extra.update({'t16_events': len(res16), 't32_cubes': len(leaves), 't32_classes': len({l[2] for l in leaves}),
                       't32_class_path_groups': ngroups, 't32_space_tiled': '3 * 2^27 (sum of cube sizes checked)'})
     ctx.extra['rule'] = ('all 2^16 halfwords executed as the first halfword in Thumb state (quick: one IT position per word '
